@@ -111,3 +111,19 @@ Definition create_compose_id (a : cid_args) : result str :=
   Ok (cid_prefix a ++ c_dash :: c_date a ++ sfx ++ c_dot :: show_dec (c_respin a)).
 
 Definition compose_id_valid (id : str) : bool := re_matches re_compose_id id.
+
+(* the same decoder, computed by the generic matcher on the REGENERATED pattern (second opinion for the hand model above) *)
+Definition get_date_type_respin_rx (id : str) : result (option (str * str * N)) :=
+  match re_match re_date_type_respin id with
+  | None => Ok None
+  | Some c =>
+      let date := match group id c re_date_type_respin_g_date with Some d => d | None => [] end in
+      let respin := match group id c re_date_type_respin_g_respin with Some ds => parse_dec ds | None => 0 end in
+      match group id c re_date_type_respin_g_type with
+      | None | Some [] => Ok (Some (date, production, respin))
+      | Some (_ :: t) => match assoc t COMPOSE_TYPE_SUFFIXES with
+                         | Some ct => Ok (Some (date, ct, respin))
+                         | None => Err ValueError
+                         end
+      end
+  end.
